@@ -334,6 +334,18 @@ fn all_defects(thorough: bool) -> Vec<Defect> {
     out
 }
 
+/// The texts of the ill-scoped programs of the inline-cycle, duplicate-definition and assign classes (for C14:
+/// every front end must survive them, not only the compiler).
+pub fn ill_scoped_texts(thorough: bool) -> Vec<String> {
+    let mut out = vec![];
+    inline_cycle_defects(if thorough { 4 } else { 3 }, &mut out);
+    assign_defects(thorough, &mut out);
+    let mut texts: Vec<String> = out.into_iter().filter(|d| thorough || d.sigil == SIGILS[0] || d.sigil == SIGILS[3] || d.sigil == SIGILS[1]).map(|d| d.text).collect();
+    texts.sort();
+    texts.dedup();
+    texts
+}
+
 fn check_defect(st: &mut Stats, d: &Defect) {
     let dialect = dialect_of(d.sigil);
     for (optname, o) in entry_option_sets(d.sigil) {
